@@ -1,18 +1,236 @@
 """C10 — the script aborts exactly when errexit or a shell error says so
-(DESIGN.md section 6, "C02 ... C10").  Same specification (spec/Semantics.tla)
-and same harness binary (yv-c02) as C02; this check enumerates the programs
-with one failing command of every category of XCU 2.8.1 planted at every
-position, with errexit on/off, with and without an EXIT trap, and with a
-syntax error on a later line.  See lib/checks/c02.py for the machinery.
+(DESIGN.md section 6, "C02 ... C10").
+
+Base part.  Same specification (spec/Semantics.tla) and same harness binary
+(yv-c02) as C02; it enumerates the programs with one failing command of every
+category of XCU 2.8.1 planted at every position, with errexit on/off, with and
+without an EXIT trap, and with a syntax error on a later line.  See
+lib/checks/c02.py for the machinery.
+
+Nested-errors stage (runs next to the base part; one reporter, one evidence
+file, one exit code).  Oracle: spec/NestedExec.tla (the module of G07: eval,
+dot scripts, functions, subshells, EXIT trap) extended with the leaf `fail c`,
+c one of the nine categories of XCU 2.8.1 "Consequences of Shell Errors" /
+docs/src/termination.md "Shell errors":
+    shall exit      sp (special built-in error), spr (redirection error on a
+                    special built-in), asg / asgc (assignment error without /
+                    with a command name), exp (expansion error)
+    shall not exit  reg (error of another utility), cmdsp (special built-in
+                    error through `command`), regr / cmpr (redirection error
+                    on another utility / on a compound command): $? is set,
+                    -e applies unless ignored
+The consequence of an error is decided by the failing command alone, also when
+another built-in (eval, dot) executes it.
+
+Calib  spec/Calib_NestedExec.tla: error-p.sh, command-p.sh, termination.md.
+Laws   spec/Gen_NestedExec.tla INVARIANT LawsC10 (and Laws of G07) on every
+       program of a bounded enumeration x errexit x EXIT trap: the outcome
+       depends only on the class of the error; a "shall exit" error equals a
+       syntax error found by eval; in a subshell it is an ordinary failure of
+       the subshell; wrapping the failing command in eval or in a dot script
+       changes nothing; "shall not exit" errors never end a run without -e;
+       after a "shall exit" error nothing runs but the EXIT trap, once.
+S->I   INVARIANT EmitC10: every enumerated command P holding a failing
+       command, as `P; probe`, with the prescribed probe trace, exit status and
+       EXIT-trap run per (errexit, trap) option; harness/g07 renders `fail c`
+       as one of 148 documented error invocations of 33 built-ins
+       (harness/g07/src/failtab.rs, seeded draw), runs the real shell on the
+       simulated OS and a sample through yash_cli::main() on the real OS.
+Table  every invocation of the catalogue once directly, in eval, in a dot
+       script, in a subshell, as an if condition and in a function called by
+       eval, with and without -e (simulated OS; directly and in eval on the
+       real OS); recorded and judged by spec/Trace_NestedExec.tla.
+I->S   seeded random larger programs of the G07 generator with planted failing
+       commands, recorded from the shell and judged by Trace_NestedExec.
 """
+import json
+import os
+import threading
+import time
+from concurrent.futures import ThreadPoolExecutor
+
+import vlib
 from checks import c02 as base
+from checks import g07
 
 PID = "C10"
+STAGE = "nested-errors"
+
+# gen: (configuration, K, mode, replay every n-th program, variants)
+NPLAN = {
+    "quick": {
+        "laws": ("MC_NestedExec_c10laws.cfg", 3),
+        "gen": [("c10err", 4, "sim", 1, 2), ("c10nest", 6, "sim", 1, 2), ("c10err", 3, "real", 3, 1)],
+        "table": {"sim": (6, 2), "real": (2, 1)},
+        "random": (4000, 30, 25), "random_real": (200, 20, 25), "jobs": 6, "workers": 4,
+    },
+    "thorough": {
+        "laws": ("MC_NestedExec_c10laws.cfg", 4),
+        "gen": [("c10err", 5, "sim", 1, 2), ("c10nest", 7, "sim", 1, 2), ("c10nest2", 6, "sim", 1, 2),
+                ("c10err", 4, "real", 8, 1), ("c10nest", 5, "real", 4, 1)],
+        "table": {"sim": (6, 2), "real": (6, 2)},
+        "random": (40000, 40, 25), "random_real": (2000, 30, 25), "jobs": 8, "workers": 6,
+    },
+}
+
+_CTX = ("top", "eval", "dot", "fn", "sub")
+_CATS = ("sp", "spr", "asg", "asgc", "exp", "reg", "cmdsp", "regr", "cmpr")
+# the rules of NestedExec.tla this stage is about: each must be exercised by a replayed or judged run
+STAGE_TAGS = ([f"fail:{c}@{x}" for c in _CATS for x in _CTX] + ["fail-soft-exempt"]
+              + [f"errexit@{x}" for x in _CTX] + ["trap-after-error", "trap-after-errexit", "trap-after-eof"])
+
+
+class _Counting:
+    """Reporter wrapper: counts what this stage reported (known findings included)."""
+
+    def __init__(self, rep):
+        self._rep = rep
+        self.reported = 0
+        self.new = 0
+        self._lock = threading.Lock()
+
+    def violation(self, key, detail, replay_obj):
+        new = self._rep.violation(key, detail, replay_obj)
+        with self._lock:
+            self.reported += 1
+            self.new += 1 if new else 0
+        return new
+
+    def __getattr__(self, name):
+        return getattr(self._rep, name)
+
+
+def nested_stage(tier, rep):
+    t0 = time.time()
+    plan = NPLAN[tier]
+    wd = vlib.workdir(PID + "-nested")
+    rep = _Counting(rep)
+    st = g07.Stats()
+    vlib.build_harness(g07.PKG)
+    g07.calibrate()
+    jobs = plan["jobs"]
+    laws = {}
+    judged = {"ok": 0, "skip": 0}
+    lock = g07._LOCK   # (the lock under which g07's functions update `st`)
+
+    def check_laws():
+        cfg, k = plan["laws"]
+        r = vlib.tlc("Gen_NestedExec", g07._cfg_with_k(cfg, k, wd), workers=plan["workers"], timeout=2400)
+        vlib.tlc_must_pass(r, f"laws of the specification ({cfg} K={k})")
+        with lock:
+            st.states += r.distinct
+            st.transitions += r.generated
+        laws.update({"cfg": cfg, "K": k, "program_prefixes": r.distinct, "tlc_s": round(r.wall, 1)})
+        vlib.log(f"[nested] laws of NestedExec.tla with failing commands ({cfg} K={k}) hold on {r.distinct} program "
+                 f"prefixes x 4 run options ({r.wall:.1f}s)")
+
+    def recorded(n, size, mode, shards, label, extra):
+        ok, sk = g07.random_and_validate(rep, wd, n, size, mode, st, jobs=jobs, shards=shards, stage=STAGE, label=label,
+                                         extra=extra)
+        with lock:
+            judged["ok"] += ok
+            judged["skip"] += sk
+
+    def chain_sim():
+        # spec -> impl on the simulated OS
+        check_laws()
+        for name, kk, mode, every, variants in plan["gen"]:
+            if mode == "sim":
+                g07.gen_and_replay(rep, wd, name, kk, mode, every, st, variants, workers=plan["workers"], jobs=jobs,
+                                   stage=STAGE)
+
+    def chain_rec():
+        # the catalogue of failing commands, every entry in every context; the real OS; impl -> spec
+        for mode, (ctxs, eopts) in plan["table"].items():
+            recorded(0, 0, mode, 2, "catalogue", ["--table", 1, "--ctxs", ctxs, "--eopts", eopts])
+        for name, kk, mode, every, variants in plan["gen"]:
+            if mode == "real":
+                g07.gen_and_replay(rep, wd, name, kk, mode, every, st, variants, workers=plan["workers"], jobs=jobs,
+                                   stage=STAGE)
+        n, size, pct = plan["random"]
+        recorded(n, size, "sim", 4, "planted", ["--fail", pct])
+        n, size, pct = plan["random_real"]
+        recorded(n, size, "real", 2, "planted", ["--fail", pct])
+
+    with ThreadPoolExecutor(max_workers=2) as ex:
+        for f in [ex.submit(chain_sim), ex.submit(chain_rec)]:
+            f.result()
+    validated, skipped = judged["ok"], judged["skip"]
+    never = sorted(t for t in STAGE_TAGS if not st.tags.get(t) and not st.rtags.get(t))
+    if never and rep.new == 0:
+        raise vlib.ToolError(f"nested-errors stage: rules of NestedExec.tla never exercised: {never}")
+    wall = time.time() - t0
+    vlib.log(f"[nested] nested-errors stage: {st.programs} programs replayed, {st.pairs_ok} (program, option) pairs, "
+             f"{st.runs} runs, {validated} recorded runs judged by Trace_NestedExec, {rep.reported} disagreement(s) "
+             f"reported, {wall:.1f}s")
+    return {
+        "name": "nested_errors_stage",
+        "states": st.states, "transitions": st.transitions, "validated": st.pairs_ok + validated,
+        "evaluations": st.runs, "distinct_nontrivial": st.pairs_ok,
+        "samples": st.samples[:4],
+        "coverage": {
+            "oracle": "spec/NestedExec.tla (leaf `fail c`), spec/Gen_NestedExec.tla (EmitC10, LawsC10), "
+                      "spec/Trace_NestedExec.tla, spec/Calib_NestedExec.tla",
+            "laws": laws,
+            "states": st.states, "transitions": st.transitions,
+            "programs_enumerated_and_replayed": st.programs,
+            "program_option_pairs": st.pairs_ok,
+            "runs": st.runs,
+            "recorded_runs_judged_by_Trace_NestedExec": validated,
+            "recorded_runs_skipped_unspecified_or_diverging": skipped,
+            "option_runs_skipped_unspecified": st.unspec, "option_runs_skipped_diverging": st.div,
+            "option_runs_not_renderable_in_mode": st.unsupported,
+            "disagreements_reported": rep.reported,
+            "per_configuration": st.per_cfg,
+            "token_kinds_replayed": st.kinds,
+            "spec_rule_tags_required": len(STAGE_TAGS),
+            "spec_rule_tags_replayed": {t: c for t, c in st.tags.items() if t in STAGE_TAGS},
+            "spec_rule_tags_in_accepted_recorded_runs": {t: c for t, c in st.rtags.items() if t in STAGE_TAGS},
+            "wall_s": round(wall, 1),
+        },
+        "assumptions": [
+            "nested-errors stage: each entry of harness/g07/src/failtab.rs is an error of the category it is listed "
+            "under (the clause of the manual / of POSIX is given per entry); the statuses of the failing commands "
+            "are only required to be non-zero (symbols bound consistently per run)",
+            "nested-errors stage: on the simulated OS a pathname that cannot be opened for writing is the working "
+            "directory (the simulator creates missing directories on O_CREAT); /nx-yv/f on the real OS",
+            "nested-errors stage: the assumptions of G07 about the probe built-ins, symbolic statuses and skipped "
+            "unspecified programs apply",
+        ],
+    }
 
 
 def run(tier):
-    return base.run_property(PID, tier)
+    return base.run_property(PID, tier, stage=nested_stage)
 
 
 def replay(path):
-    return base.replay_property(PID, path)
+    with open(path) as f:
+        obj = json.load(f)
+    rec = obj.get("replay")
+    if not (isinstance(rec, dict) and rec.get("stage") == STAGE):
+        return base.replay_property(PID, path)
+    wd = vlib.workdir(PID + "-replay")
+    src = os.path.join(wd, "in.json")
+    with open(src, "w") as f:
+        json.dump(rec, f)
+    rc, out, _ = vlib.run_harness(g07.PKG, ["redo", "--in", src, "--tick", 2])
+    res = json.loads(out.strip().splitlines()[-1])
+    obs = res["observed"]
+    print("text:\n" + res["text"])
+    for fl in res.get("files", []):
+        print(f"file {fl['name']}:\n{fl['content']}")
+    if rec.get("inv"):
+        print("failing commands:", rec["inv"])
+    print("observed:", json.dumps(obs))
+    one = os.path.join(wd, "one.ndjson")
+    with open(one, "w") as f:
+        f.write(json.dumps({"p": rec["p"], "e": max(0, rec["e"]), "t": max(0, rec["t"]),
+                            "oc": obs["oc"], "tr": obs["tr"], "st": obs["st"]}) + "\n")
+    v = g07._judge(one, 1)[0]
+    if "reject" in v:
+        print("rejected by Trace_NestedExec; the specification prescribes:", json.dumps(v))
+        print(f"VIOLATION property={PID} replay={path}")
+        return 1
+    print("accepted by Trace_NestedExec" + (f" (skipped: {v['skip']})" if "skip" in v else ""))
+    return 0
